@@ -1,5 +1,5 @@
-From E2V Require Import Populate.CopyChunk.
+From E2V Require Import Populate.CopyChunk Populate.SeekAlign.
 Require Extraction.
 Require Import ExtrOcamlBasic.
 Extraction Language OCaml.
-Extraction "copychunk_model.ml" mapped_blocks copy_chunk.
+Extraction "copychunk_model.ml" mapped_blocks copy_chunk data_blk hole_blk.
